@@ -609,3 +609,39 @@ func (ev *Eval) instantiateLoopStore(obj ssa.Value, path []pathElem) *Term {
 		return nil
 	})
 }
+
+// StoreInfo describes one store into a tracked local object (an Alloc or a MakeSlice), for rules that reason about how a
+// buffer is filled segment by segment.
+type StoreInfo struct {
+	Obj   ssa.Value
+	Path  []string // "" for an index step, the field name for a field step
+	Index []*Term  // index term of each index step (nil for field steps)
+	Val   *Term
+	Instr *ssa.Store
+	Loop  *Loop // innermost loop containing the store, or nil
+}
+
+// StoresInto lists the stores of this activation into obj, in block/instruction order.
+func (ev *Eval) StoresInto(obj ssa.Value) []StoreInfo {
+	ev.phase2()
+	var out []StoreInfo
+	for _, s := range ev.index().byObj[obj] {
+		si := StoreInfo{Obj: obj, Val: ev.op(s.val, s.instr), Instr: s.instr, Loop: innermost(ev.Loops(), s.instr.Block())}
+		for i := range s.path {
+			si.Path = append(si.Path, s.path[i].field)
+			if s.path[i].field == "" {
+				si.Index = append(si.Index, ev.pathTerm(&s.path[i]))
+			} else {
+				si.Index = append(si.Index, nil)
+			}
+		}
+		out = append(out, si)
+	}
+	return out
+}
+
+// TermIn evaluates v as seen from block b (loop variables are use-site sensitive).
+func (ev *Eval) TermIn(v ssa.Value, b *ssa.BasicBlock) *Term { return ev.opIn(v, b) }
+
+// InnermostLoop returns the innermost loop of this activation containing b.
+func (ev *Eval) InnermostLoop(b *ssa.BasicBlock) *Loop { return innermost(ev.Loops(), b) }
